@@ -211,6 +211,7 @@ func checkC02(c *Ctx, r *Result, tier string) {
 	r.Floor("R02a-wait", n, 1)
 	c02ObserverScope(c, r)
 	c02ItemsOwnContainers(c, r)
+	c02CallbacksOutsideLocks(c, r, lfs)
 
 	// ---- R02b Task.Run / HandleError -----------------------------------------------------------
 	taskIface := c.Interface("engine/pool", "Task")
